@@ -546,6 +546,26 @@ def intModifier (P : Prims) (e : Option Expr) (blockLoc : Loc) : M (Option Int) 
     | .int .int n => pure (some n)
     | _ => M.fail (.located (errorfAt blockLoc .loopMod))        -- "loop offset/limit/cols must be an integer"
 
+/-- `applyLoopModifiers`: reverse, then skip `offset` (when positive), then take `limit`
+    (when not negative) -/
+def selectItems (reversed : Bool) (off lim : Option Int) (xs : List GoVal) : List GoVal :=
+  let a := if reversed then xs.reverse else xs
+  let b := match off with
+    | some o => if o > 0 then a.drop o.toNat else a
+    | none => a
+  match lim with
+  | some l => if l ≥ 0 then b.take l.toNat else b
+  | none => b
+
+/-- `makeLoopDecorator`: the number of columns of a tablerow (`none` for a plain `for`) -/
+def tablerowCols (P : Prims) (tablerow : Bool) (cols : Option Expr) (loc : Loc) : M (Option Nat) :=
+  if tablerow then do
+    let cv ← intModifier P cols loc
+    match cv with
+    | some n => pure (some (if n > 0 then n.toNat else 2147483647))
+    | none => pure (some 2147483647)
+  else pure none
+
 mutual
 def renderNode (c : RCtx) : Node → M Status
   | .text line src => wrapFailAt c.cfg.path ⟨line, true⟩ (do writeM src; pure .done)
@@ -580,25 +600,14 @@ def renderNode (c : RCtx) : Node → M Status
       let env ← M.getEnv
       let v ← M.ofRes (evaluate c.P env e)
       let items0 ← M.ofRes (loopItems v)
-      let items1 := if mods.reversed then items0.reverse else items0
       let off ← intModifier c.P mods.offset loc
-      let items2 := match off with
-        | some o => if o > 0 then items1.drop o.toNat else items1
-        | none => items1
       let lim ← intModifier c.P mods.limit loc
-      let items := match lim with
-        | some l => if l ≥ 0 then items2.take l.toNat else items2
-        | none => items2
+      let items := selectItems mods.reversed off lim items0
       if clauses.length > 1 then M.fail (.plain (.other "forElse")) else
       match items, clauses with
       | [], [els] => renderBlockBody c els
       | _, _ => do
-        let cols ← (if tablerow then do
-            let cv ← intModifier c.P mods.cols loc
-            match cv with
-            | some n => pure (some (if n > 0 then n.toNat else 2147483647))
-            | none => pure (some 2147483647)
-          else pure none : M (Option Nat))
+        let cols ← tablerowCols c.P tablerow mods.cols loc
         let prevLoop ← M.getVar nmForloop
         let prevVar ← M.getVar var
         let st ← iterateM var cols (renderBlockBody c body) items.length items 0 []
